@@ -547,6 +547,8 @@ class Array:
             endindex = self.shape[0]
         if endindex > self.shape[0]:
             raise ValueError("endindex is too high")
+        if startindex < 0:
+            raise ValueError("startindex should be 0 or higher")
         if startindex >= endindex:
             raise ValueError("startindex should be lower than endindex")
         nframes, _, remainder = fit_frames(
